@@ -14,6 +14,7 @@ import (
 	"reflect"
 	"sort"
 	"strconv"
+	"strings"
 	"unsafe"
 
 	"github.com/smart-core-os/sc-api/go/traits"
@@ -29,6 +30,8 @@ import (
 	"github.com/smart-core-os/sc-golang/verifharness/vh"
 	"google.golang.org/grpc/status"
 	"google.golang.org/protobuf/proto"
+	"google.golang.org/protobuf/types/known/fieldmaskpb"
+	"unicode/utf8"
 )
 
 func init() { vh.Register("C15", genC15) }
@@ -38,14 +41,46 @@ func main() { vh.Main() }
 // ---- one paged RPC behind a uniform face ----
 
 type page struct {
-	keys  []string
+	keys  []string // identity of each returned item (from the key field, or from the shadow field when the read mask leaves the key out)
 	next  string
 	total int32
+	bad   string // key field and shadow field of an item disagree
+}
+
+// Every item carries its id a second time in another field (the "shadow": title, parent, media_type,
+// origin.name, used.amount), so that an item is still identified when the request's read mask
+// leaves the key field out (the shadow value is "s:" + id, never the id itself, so that a handler that
+// took the token key from the wrong field would be seen).  mask: 0 = no read mask, 1 = key + shadow field, 2 = shadow field only.
+const (
+	maskNone = iota
+	maskWithKey
+	maskDropKey
+)
+
+func readMask(mode int, keyPath, shadowPath string) *fieldmaskpb.FieldMask {
+	switch mode {
+	case maskWithKey:
+		return &fieldmaskpb.FieldMask{Paths: []string{keyPath, shadowPath}}
+	case maskDropKey:
+		return &fieldmaskpb.FieldMask{Paths: []string{shadowPath}}
+	}
+	return nil
+}
+
+// item resolves the identity of one returned item.
+func (p *page) item(mode int, key, shadowID string) {
+	id := key
+	if mode == maskDropKey && key == "" {
+		id = shadowID
+	} else if key != shadowID {
+		p.bad = fmt.Sprintf("key field %q, shadow field names %q", key, shadowID)
+	}
+	p.keys = append(p.keys, id)
 }
 
 type inst struct {
-	call func(size int32, tok string) (*page, error) // the paged RPC on the real ModelServer
-	full func() []string                             // model-level listing (not the paged RPC)
+	call func(size int32, tok string, mask int) (*page, error) // the paged RPC on the real ModelServer
+	full func() []string                                       // model-level listing (not the paged RPC)
 	del  func(id string) error
 }
 
@@ -87,20 +122,20 @@ func rpcs() []rpc {
 		{name: "electric.ListModes", coq: "SElectric", chooseIDs: true, build: func(ids []string, n int, r *vcoq.Rand) (*inst, error) {
 			m := electricpb.NewModel()
 			for _, id := range ids {
-				if err := m.AddMode(&traits.ElectricMode{Id: id, Title: "t" + id}); err != nil {
+				if err := m.AddMode(&traits.ElectricMode{Id: id, Title: "s:" + id}); err != nil {
 					return nil, err
 				}
 			}
 			s := electricpb.NewModelServer(m)
 			return &inst{
-				call: func(size int32, tok string) (*page, error) {
-					res, err := s.ListModes(ctx, &traits.ListModesRequest{Name: "dev", PageSize: size, PageToken: tok})
+				call: func(size int32, tok string, mask int) (*page, error) {
+					res, err := s.ListModes(ctx, &traits.ListModesRequest{Name: "dev", PageSize: size, PageToken: tok, ReadMask: readMask(mask, "id", "title")})
 					if err != nil {
 						return nil, err
 					}
 					p := &page{next: res.NextPageToken, total: res.TotalSize}
 					for _, it := range res.Modes {
-						p.keys = append(p.keys, it.Id)
+						p.item(mask, it.Id, strings.TrimPrefix(it.Title, "s:"))
 					}
 					return p, nil
 				},
@@ -121,15 +156,19 @@ func rpcs() []rpc {
 				}
 			}
 			s := hailpb.NewModelServer(m)
+			byOrigin := map[string]string{}
+			for _, it := range m.ListHails() {
+				byOrigin[it.GetOrigin().GetName()] = it.Id
+			}
 			return &inst{
-				call: func(size int32, tok string) (*page, error) {
-					res, err := s.ListHails(ctx, &traits.ListHailsRequest{Name: "dev", PageSize: size, PageToken: tok})
+				call: func(size int32, tok string, mask int) (*page, error) {
+					res, err := s.ListHails(ctx, &traits.ListHailsRequest{Name: "dev", PageSize: size, PageToken: tok, ReadMask: readMask(mask, "id", "origin")})
 					if err != nil {
 						return nil, err
 					}
 					p := &page{next: res.NextPageToken, total: res.TotalSize}
 					for _, it := range res.Hails {
-						p.keys = append(p.keys, it.Id)
+						p.item(mask, it.Id, byOrigin[it.GetOrigin().GetName()])
 					}
 					return p, nil
 				},
@@ -145,18 +184,18 @@ func rpcs() []rpc {
 		{name: "parent.ListChildren", coq: "SParent", chooseIDs: true, build: func(ids []string, n int, r *vcoq.Rand) (*inst, error) {
 			m := parentpb.NewModel()
 			for _, id := range ids {
-				m.AddChild(&traits.Child{Name: id})
+				m.AddChild(&traits.Child{Name: id, Parent: "s:" + id})
 			}
 			s := parentpb.NewModelServer(m)
 			return &inst{
-				call: func(size int32, tok string) (*page, error) {
-					res, err := s.ListChildren(ctx, &traits.ListChildrenRequest{Name: "dev", PageSize: size, PageToken: tok})
+				call: func(size int32, tok string, mask int) (*page, error) {
+					res, err := s.ListChildren(ctx, &traits.ListChildrenRequest{Name: "dev", PageSize: size, PageToken: tok, ReadMask: readMask(mask, "name", "parent")})
 					if err != nil {
 						return nil, err
 					}
 					p := &page{next: res.NextPageToken, total: res.TotalSize}
 					for _, it := range res.Children {
-						p.keys = append(p.keys, it.Name)
+						p.item(mask, it.Name, strings.TrimPrefix(it.Parent, "s:"))
 					}
 					return p, nil
 				},
@@ -172,20 +211,20 @@ func rpcs() []rpc {
 		{name: "publication.ListPublications", coq: "SPublication", chooseIDs: true, build: func(ids []string, n int, r *vcoq.Rand) (*inst, error) {
 			m := publicationpb.NewModel()
 			for _, id := range ids {
-				if _, err := m.CreatePublication(&traits.Publication{Id: id}); err != nil {
+				if _, err := m.CreatePublication(&traits.Publication{Id: id, MediaType: "s:" + id}); err != nil {
 					return nil, err
 				}
 			}
 			s := publicationpb.NewModelServer(m)
 			return &inst{
-				call: func(size int32, tok string) (*page, error) {
-					res, err := s.ListPublications(ctx, &traits.ListPublicationsRequest{Name: "dev", PageSize: size, PageToken: tok})
+				call: func(size int32, tok string, mask int) (*page, error) {
+					res, err := s.ListPublications(ctx, &traits.ListPublicationsRequest{Name: "dev", PageSize: size, PageToken: tok, ReadMask: readMask(mask, "id", "media_type")})
 					if err != nil {
 						return nil, err
 					}
 					p := &page{next: res.NextPageToken, total: res.TotalSize}
 					for _, it := range res.Publications {
-						p.keys = append(p.keys, it.Id)
+						p.item(mask, it.Id, strings.TrimPrefix(it.MediaType, "s:"))
 					}
 					return p, nil
 				},
@@ -201,20 +240,20 @@ func rpcs() []rpc {
 		{name: "vending.ListConsumables", coq: "SConsumables", chooseIDs: true, build: func(ids []string, n int, r *vcoq.Rand) (*inst, error) {
 			m := vendingpb.NewModel()
 			for _, id := range ids {
-				if _, err := m.CreateConsumable(&traits.Consumable{Name: id}); err != nil {
+				if _, err := m.CreateConsumable(&traits.Consumable{Name: id, Title: "s:" + id}); err != nil {
 					return nil, err
 				}
 			}
 			s := vendingpb.NewModelServer(m)
 			return &inst{
-				call: func(size int32, tok string) (*page, error) {
-					res, err := s.ListConsumables(ctx, &traits.ListConsumablesRequest{Name: "dev", PageSize: size, PageToken: tok})
+				call: func(size int32, tok string, mask int) (*page, error) {
+					res, err := s.ListConsumables(ctx, &traits.ListConsumablesRequest{Name: "dev", PageSize: size, PageToken: tok, ReadMask: readMask(mask, "name", "title")})
 					if err != nil {
 						return nil, err
 					}
 					p := &page{next: res.NextPageToken, total: res.TotalSize}
 					for _, it := range res.Consumables {
-						p.keys = append(p.keys, it.Name)
+						p.item(mask, it.Name, strings.TrimPrefix(it.Title, "s:"))
 					}
 					return p, nil
 				},
@@ -229,21 +268,23 @@ func rpcs() []rpc {
 		}},
 		{name: "vending.ListInventory", coq: "SInventory", chooseIDs: true, build: func(ids []string, n int, r *vcoq.Rand) (*inst, error) {
 			m := vendingpb.NewModel()
-			for _, id := range ids {
-				if _, err := m.CreateStock(&traits.Consumable_Stock{Consumable: id}); err != nil {
+			byUsed := map[float32]string{}
+			for i, id := range ids {
+				byUsed[float32(i+1)] = id
+				if _, err := m.CreateStock(&traits.Consumable_Stock{Consumable: id, Used: &traits.Consumable_Quantity{Amount: float32(i + 1)}}); err != nil {
 					return nil, err
 				}
 			}
 			s := vendingpb.NewModelServer(m)
 			return &inst{
-				call: func(size int32, tok string) (*page, error) {
-					res, err := s.ListInventory(ctx, &traits.ListInventoryRequest{Name: "dev", PageSize: size, PageToken: tok})
+				call: func(size int32, tok string, mask int) (*page, error) {
+					res, err := s.ListInventory(ctx, &traits.ListInventoryRequest{Name: "dev", PageSize: size, PageToken: tok, ReadMask: readMask(mask, "consumable", "used")})
 					if err != nil {
 						return nil, err
 					}
 					p := &page{next: res.NextPageToken, total: res.TotalSize}
 					for _, it := range res.Inventory {
-						p.keys = append(p.keys, it.Consumable)
+						p.item(mask, it.Consumable, byUsed[it.GetUsed().GetAmount()])
 					}
 					return p, nil
 				},
@@ -277,7 +318,7 @@ func buildWaste(ids []string) (*inst, error) {
 	}
 	s := wastepb.NewModelServer(m)
 	return &inst{
-		call: func(size int32, tok string) (*page, error) {
+		call: func(size int32, tok string, mask int) (*page, error) {
 			res, err := s.ListWasteRecords(ctx, &traits.ListWasteRecordsRequest{Name: "dev", PageSize: size, PageToken: tok})
 			if err != nil {
 				return nil, err
@@ -300,9 +341,10 @@ func buildWaste(ids []string) (*inst, error) {
 // ---- tokens ----
 
 type tokClass struct {
-	kind string // "empty" | "key" | "malformed" ; waste: "empty" | "num" | "malformed"
-	key  string
-	num  int64
+	kind  string // "empty" | "key" | "malformed" ; waste: "empty" | "num" | "malformed"
+	key   string
+	num   int64
+	extra []byte // unknown fields of the decoded PageToken (the server re-marshals them into its own tokens)
 }
 
 // classifyKeyToken decodes a token the way a client library would: base64, then types.PageToken.
@@ -318,7 +360,7 @@ func classifyKeyToken(tok string) tokClass {
 	if err := proto.Unmarshal(b, pt); err != nil {
 		return tokClass{kind: "malformed"}
 	}
-	return tokClass{kind: "key", key: pt.GetLastResourceName()}
+	return tokClass{kind: "key", key: pt.GetLastResourceName(), extra: append([]byte(nil), pt.ProtoReflect().GetUnknown()...)}
 }
 
 func classifyWasteToken(tok string) tokClass {
@@ -351,7 +393,7 @@ func (c tokClass) coqKey() string {
 	case "empty":
 		return "TokEmpty"
 	case "key":
-		return vcoq.App("TokKey", vcoq.Str(c.key))
+		return vcoq.App("TokKey", cstr(c.key))
 	}
 	return "TokMalformed"
 }
@@ -371,23 +413,38 @@ type c15 struct {
 	o       *vcoq.Out
 	r       *vcoq.Rand
 	skipped int
+	minted  []string // raw next_page_tokens handed out by any key-token RPC (fed to other RPCs later)
+	cases   int
+	guardOK int
+}
+
+// cstr prints a Go string as a Coq string: a literal when printable ASCII, else by its bytes.
+func cstr(s string) string {
+	if printable(s) {
+		return vcoq.Str(s)
+	}
+	it := make([]string, len(s))
+	for i := 0; i < len(s); i++ {
+		it[i] = strconv.Itoa(int(s[i]))
+	}
+	return "(bstr " + vcoq.List(it) + ")"
 }
 
 func coqStrs(l []string) string {
 	it := make([]string, len(l))
 	for i, s := range l {
-		it[i] = vcoq.Str(s)
+		it[i] = cstr(s)
 	}
 	return vcoq.List(it)
 }
 
-func safeCall(in *inst, size int32, tok string) (p *page, err error, panicked any) {
+func safeCall(in *inst, size int32, tok string, mask int) (p *page, err error, panicked any) {
 	defer func() {
 		if x := recover(); x != nil {
 			panicked = x
 		}
 	}()
-	p, err = in.call(size, tok)
+	p, err = in.call(size, tok, mask)
 	return
 }
 
@@ -403,8 +460,19 @@ func sameStrs(a, b []string) bool {
 	return true
 }
 
-// chain runs one client loop and records it.  waste selects the numeric token flavour.
-func (g *c15) chain(rp rpc, in *inst, size int32, tok0 string, tokTag string) {
+func capOf(size int32) int {
+	if size == 0 {
+		return 50
+	}
+	if size > 1000 {
+		return 1000
+	}
+	return int(size)
+}
+
+// chain runs one client loop and records it.  Request i asks for sizes[i mod len(sizes)] items;
+// mask is the read mask mode of every request of the chain.  waste selects the numeric token flavour.
+func (g *c15) chain(rp rpc, in *inst, sizes []int32, mask int, tok0 string, tokTag string) {
 	waste := rp.coq == ""
 	keys := in.full()
 	n := len(keys)
@@ -414,30 +482,41 @@ func (g *c15) chain(rp rpc, in *inst, size int32, tok0 string, tokTag string) {
 	} else {
 		cls = classifyKeyToken(tok0)
 	}
-	js := map[string]any{"rpc": rp.name, "keys": keys, "page_size": size, "page_token": tok0,
-		"token_decoded": map[string]any{"kind": cls.kind, "key": cls.key, "num": cls.num}}
-	if !printable(cls.key) {
-		g.skipped++
-		return
-	}
-	for _, k := range keys {
-		if !printable(k) {
+	js := map[string]any{"rpc": rp.name, "keys": keys, "page_sizes": sizes, "page_sizes_note": "request i sends page_sizes[i mod len]", "read_mask": []string{"none", "key+shadow field", "shadow field only (key left out)"}[mask], "page_token": tok0,
+		"token_decoded": map[string]any{"kind": cls.kind, "key": cls.key, "num": cls.num, "unknown_field_bytes": cls.extra}}
+	guard := true
+	for i, k := range keys {
+		if !utf8.ValidString(k) {
 			g.skipped++
 			return
+		}
+		if !waste && (k == "" || i > 0 && keys[i-1] >= k) {
+			guard = false
 		}
 	}
 	var obs []string
 	var jobs []any
 	tok := tok0
 	outcome := "pages"
+	first := ""
 	calls := 0
-	for i := 0; i < n+3; i++ {
-		p, err, pan := safeCall(in, size, tok)
+	fuel := n + 3 // the client makes at most n + 3 calls (a chain that makes progress needs at most n + 1)
+	// ... and gives up early once it has been handed more than 3n + 3000 items in total: a chain that
+	// repeats pages is cut there (it has failed C15_ok long before: every page must hold the NEXT items)
+	// instead of writing out a thousand copies of a thousand-item page
+	received := 0
+	negSeen := false
+	for i := 0; i < fuel && received <= 3*n+3000; i++ {
+		size := sizes[i%len(sizes)]
+		p, err, pan := safeCall(in, size, tok, mask)
 		calls++
 		if pan != nil {
 			obs = append(obs, "OPanic")
 			jobs = append(jobs, map[string]any{"panic": fmt.Sprint(pan)})
 			outcome = "panic"
+			if first == "" {
+				first = "panic"
+			}
 			break
 		}
 		if err != nil {
@@ -445,7 +524,17 @@ func (g *c15) chain(rp rpc, in *inst, size int32, tok0 string, tokTag string) {
 			obs = append(obs, vcoq.App("OErr", vcoq.Int(code)))
 			jobs = append(jobs, map[string]any{"error_code": code})
 			outcome = "error"
+			if size < 0 {
+				negSeen = true
+			}
+			if first == "" {
+				first = "error"
+			}
 			break
+		}
+		if p.bad != "" {
+			g.o.Directs = append(g.o.Directs, vcoq.Direct{What: rp.name + " returned an item whose fields disagree: " + p.bad, Class: "item-fields-disagree:" + rp.name, Replay: js})
+			return
 		}
 		next := "None"
 		var jnext any
@@ -459,21 +548,34 @@ func (g *c15) chain(rp rpc, in *inst, size int32, tok0 string, tokTag string) {
 				next = vcoq.Some(vcoq.Z(c.num))
 				jnext = c.num
 			} else {
-				c := classifyKeyToken(p.next)
-				if c.kind != "key" || !printable(c.key) {
-					g.o.Directs = append(g.o.Directs, vcoq.Direct{What: rp.name + " returned a next_page_token that does not decode to a PageToken", Class: "undecodable-next-token:" + rp.name, Replay: js})
+				if !printable(p.next) {
+					g.o.Directs = append(g.o.Directs, vcoq.Direct{What: rp.name + " returned a next_page_token that is not printable text", Class: "undecodable-next-token:" + rp.name, Replay: js})
 					return
 				}
-				next = vcoq.Some(vcoq.Str(c.key))
-				jnext = c.key
+				next = vcoq.Some(cstr(p.next))
+				jnext = p.next
+				if len(g.minted) < 4000 {
+					g.minted = append(g.minted, p.next)
+				}
 			}
 		}
 		for _, k := range p.keys {
-			if !printable(k) {
+			if !utf8.ValidString(k) {
 				g.skipped++
 				return
 			}
 		}
+		if first == "" {
+			switch {
+			case p.next != "":
+				first = "full-page+token"
+			case len(p.keys) == 0:
+				first = "empty-last-page"
+			default:
+				first = "remainder-fits"
+			}
+		}
+		received += len(p.keys)
 		obs = append(obs, vcoq.App("OPage", coqStrs(p.keys), next, vcoq.Z(int64(p.total))))
 		jobs = append(jobs, map[string]any{"keys": p.keys, "next": jnext, "total_size": p.total})
 		if p.next == "" {
@@ -485,13 +587,49 @@ func (g *c15) chain(rp rpc, in *inst, size int32, tok0 string, tokTag string) {
 	if after := in.full(); !sameStrs(after, keys) {
 		g.o.Directs = append(g.o.Directs, vcoq.Direct{What: rp.name + " changed the collection while listing", Class: "list-mutates:" + rp.name, Replay: js})
 	}
+	pat := make([]string, len(sizes))
+	for i, z := range sizes {
+		pat[i] = vcoq.Z(int64(z))
+	}
+	coqSizes := "(cyc " + vcoq.List(pat) + " " + vcoq.Nat(fuel) + ")"
 	var coq string
 	if waste {
-		coq = vcoq.App("KWaste", coqStrs(keys), vcoq.Z(int64(size)), cls.coqWaste(), vcoq.List(obs))
+		coq = vcoq.App("KWaste", coqStrs(keys), coqSizes, cls.coqWaste(), vcoq.List(obs))
 	} else {
-		coq = vcoq.App("KKeys", rp.coq, coqStrs(keys), vcoq.Z(int64(size)), cls.coqKey(), vcoq.List(obs))
+		ex := make([]string, len(cls.extra))
+		for i, b := range cls.extra {
+			ex[i] = strconv.Itoa(int(b))
+		}
+		coq = vcoq.App("KKeys", rp.coq, coqStrs(keys), vcoq.Bool(mask == maskDropKey), coqSizes, cstr(tok0), cls.coqKey(), vcoq.List(ex), vcoq.List(obs))
 	}
-	tags := []string{rp.name, "token:" + tokTag, "outcome:" + outcome}
+	g.cases++
+	if guard {
+		g.guardOK++
+	}
+	if len(cls.extra) > 0 {
+		tokTag += "+unknown-fields"
+	}
+	tags := []string{rp.name, "token:" + tokTag, "outcome:" + outcome, "model-branch(first answer):" + first,
+		"read_mask:" + []string{"none", "with-key", "key-left-out"}[mask], "C15_guard:" + map[bool]string{true: "holds", false: "fails (case not judged)"}[guard]}
+	if len(sizes) == 1 {
+		tags = append(tags, "sizes:constant")
+	} else {
+		neg := false
+		for _, z := range sizes {
+			if z < 0 {
+				neg = true
+			}
+		}
+		if neg {
+			tags = append(tags, "sizes:varying-with-negative")
+			if negSeen {
+				tags = append(tags, "model-branch:negative-size-mid-chain")
+			}
+		} else {
+			tags = append(tags, "sizes:varying")
+		}
+	}
+	size := sizes[0]
 	switch {
 	case size < 0:
 		tags = append(tags, "page_size:negative")
@@ -510,13 +648,7 @@ func (g *c15) chain(rp rpc, in *inst, size int32, tok0 string, tokTag string) {
 	default:
 		tags = append(tags, "calls:6+")
 	}
-	capSize := int(size)
-	if size == 0 {
-		capSize = 50
-	} else if size > 1000 {
-		capSize = 1000
-	}
-	if size >= 0 && n > 0 && n%capSize == 0 && cls.kind == "empty" {
+	if len(sizes) == 1 && size >= 0 && n > 0 && n%capOf(size) == 0 && cls.kind == "empty" {
 		tags = append(tags, "n-multiple-of-page")
 	}
 	switch {
@@ -527,6 +659,29 @@ func (g *c15) chain(rp rpc, in *inst, size int32, tok0 string, tokTag string) {
 	default:
 		tags = append(tags, "n:>60")
 	}
+	uni, b64s, long := false, false, false
+	for _, k := range keys {
+		if !printable(k) {
+			uni = true
+		}
+		if len(k) >= 128 {
+			long = true
+		}
+		for i := 0; i < len(k); i++ {
+			if k[i] == '~' || k[i] == '>' || k[i] == '?' {
+				b64s = true
+			}
+		}
+	}
+	if uni {
+		tags = append(tags, "ids:non-ascii-utf8")
+	}
+	if b64s {
+		tags = append(tags, "ids:bytes-giving-base64-62/63")
+	}
+	if long {
+		tags = append(tags, "ids:>=128-bytes(2-byte-varint)")
+	}
 	g.o.Add(vcoq.Case{Coq: coq, JSON: js, Key: coq, NonTrivial: n > 0, Tags: tags})
 }
 
@@ -536,6 +691,13 @@ const alphabet = "ab0A_-~ ./"
 
 // ids: n distinct non-empty printable ids; many extend another id (mutual prefixes) or differ in
 // the last character only.
+// specialIDs: bytes whose token contains base64 sextets 62/63 ('+' '/' in the standard alphabet, '-' '_'
+// in the URL-safe one: '~' '>' '?' at byte offsets 0, 3, 6 ... of the id), non-ASCII UTF-8 of every
+// length, a quote, ids of 127 / 128 / 200 bytes (the length varint of the token grows to two bytes at 128).
+var specialIDs = []string{"~", "~~", ">", "?", "ab>", "ab?", "abc~", "a~", "~a", "o\u00bf", "\u00e9", "\u00e9a", "\u00ff", "\u07ff", "\u0800",
+	"\u65e5\u672c", "\U0001F600", "\U0010FFFF", "a\"b", "\"", "\ufffd", "a\u0301"}
+var longIDs = []string{strings.Repeat("k", 127), strings.Repeat("k", 128), strings.Repeat("~", 200)}
+
 func (g *c15) ids(n int) []string {
 	seen := map[string]bool{}
 	var out []string
@@ -543,14 +705,34 @@ func (g *c15) ids(n int) []string {
 	if n > 40 {
 		maxLen = 6
 	}
+	special := 15
+	if n > 60 {
+		special = 2
+	}
 	for len(out) < n {
 		var s string
 		switch {
+		case g.r.Chance(special):
+			s = specialIDs[g.r.Intn(len(specialIDs))]
+			if g.r.Chance(6) {
+				s = longIDs[g.r.Intn(len(longIDs))]
+			}
+			if len(out) > 0 && g.r.Chance(30) && len(s) < 20 { // appended to an existing id
+				s = out[g.r.Intn(len(out))] + s
+			}
+			if !seen[s] {
+				seen[s] = true
+				out = append(out, s)
+			}
+			continue
 		case len(out) > 0 && g.r.Chance(40): // extend an existing id
 			s = out[g.r.Intn(len(out))] + string(alphabet[g.r.Intn(len(alphabet))])
 		case len(out) > 0 && g.r.Chance(20): // proper prefix of an existing id
 			b := out[g.r.Intn(len(out))]
 			s = b[:1+g.r.Intn(len(b))]
+			if !utf8.ValidString(s) {
+				continue
+			}
 		default:
 			l := g.r.Range(1, maxLen)
 			bs := make([]byte, l)
@@ -620,16 +802,67 @@ func (g *c15) sizesFor(n int, all bool) []int32 {
 	return out
 }
 
-// tokenStreamSize: page size used with a corrupted / unexpected first token; now and then negative
-// (both inputs bad at once).
-func (g *c15) tokenStreamSize(n int) int32 {
-	if g.r.Chance(8) {
-		return int32(-1 - g.r.Intn(5))
+// patternsFor picks the page-size sequences paged over one collection: the constant ones of
+// sizesFor plus sequences that change from request to request (small then large, large then small,
+// default in between, a negative size after the first page, random).
+func (g *c15) patternsFor(n int, all bool) [][]int32 {
+	var out [][]int32
+	for _, z := range g.sizesFor(n, all) {
+		out = append(out, []int32{z})
 	}
 	if n > 60 {
-		return []int32{0, 1000, 5000, 400}[g.r.Intn(4)]
+		out = append(out, []int32{400, 5000}, []int32{1000, 1}, []int32{int32(g.r.Range(1, 1000)), 0, 5000}, []int32{999, 1, 1, -1})
+		return out
 	}
-	return g.sizesFor(n, false)[1+g.r.Intn(5)]
+	small := int32(1 + g.r.Intn(3))
+	big := []int32{1000, 5000, 0, 50, int32(n), int32(n + 1)}[g.r.Intn(6)]
+	if big == 0 && n == 0 {
+		big = 50
+	}
+	out = append(out,
+		[]int32{small, big},                               // C15-r3-2: a first page smaller than the collection, then everything
+		[]int32{int32(g.r.Range(1, n+1)), small},          // large then small
+		[]int32{small, int32(-1 - g.r.Intn(5))},           // a negative size on the second request
+		[]int32{g.posSize(n), g.posSize(n), g.posSize(n)}, // random
+	)
+	if all {
+		out = append(out, []int32{1, 0}, []int32{2, 3, 7}, []int32{small, small, int32(n)}, []int32{7, 1, -2147483648})
+	}
+	return out
+}
+
+func (g *c15) posSize(n int) int32 {
+	for {
+		if z := g.randomSize(n); z >= 0 {
+			return z
+		}
+	}
+}
+
+// tokenStreamSizes: page sizes used with a corrupted / unexpected first token; now and then negative
+// (both inputs bad at once), now and then varying.
+func (g *c15) tokenStreamSizes(n int) []int32 {
+	if g.r.Chance(8) {
+		return []int32{int32(-1 - g.r.Intn(5))}
+	}
+	if n > 60 {
+		return []int32{[]int32{0, 1000, 5000, 400}[g.r.Intn(4)]}
+	}
+	z := g.sizesFor(n, false)[1+g.r.Intn(5)]
+	if g.r.Chance(30) {
+		return []int32{int32(1 + g.r.Intn(3)), z}
+	}
+	return []int32{z}
+}
+
+func (g *c15) maskMode() int {
+	switch x := g.r.Intn(10); {
+	case x < 5:
+		return maskNone
+	case x < 7:
+		return maskWithKey
+	}
+	return maskDropKey
 }
 
 // badKeyTokens: the malformed / unexpected stream for the key-token servers.
@@ -638,14 +871,14 @@ func (g *c15) badKeyTokens(keys []string) [][2]string {
 	add := func(tag, tok string) { out = append(out, [2]string{tag, tok}) }
 	// not base64 at all
 	add("bad-base64", "!!!not-base64!!!")
-	add("bad-base64", "abc")  // wrong length
+	add("bad-base64", "abc")   // wrong length
 	add("bad-base64", "Zm9v=") // wrong padding
 	add("bad-base64", "Cg\nNh")
 	// base64 of bytes that are not a PageToken
-	add("garbage-proto", base64.StdEncoding.EncodeToString([]byte{0x12, 0x05, 'a', 'b'}))       // truncated string
-	add("garbage-proto", base64.StdEncoding.EncodeToString([]byte{0x12, 0x02, 0xff, 0xfe}))      // invalid UTF-8
+	add("garbage-proto", base64.StdEncoding.EncodeToString([]byte{0x12, 0x05, 'a', 'b'}))         // truncated string
+	add("garbage-proto", base64.StdEncoding.EncodeToString([]byte{0x12, 0x02, 0xff, 0xfe}))       // invalid UTF-8
 	add("garbage-proto", base64.StdEncoding.EncodeToString([]byte{0xff, 0xff, 0xff, 0xff, 0xff})) // bad tag
-	add("garbage-proto", base64.StdEncoding.EncodeToString([]byte{0x0f}))                        // wire type 7
+	add("garbage-proto", base64.StdEncoding.EncodeToString([]byte{0x0f}))                         // wire type 7
 	for i := 0; i < 3; i++ {
 		b := make([]byte, g.r.Range(1, 9))
 		for k := range b {
@@ -654,13 +887,13 @@ func (g *c15) badKeyTokens(keys []string) [][2]string {
 		add("random-bytes", base64.StdEncoding.EncodeToString(b))
 	}
 	// decodes, but carries no resource name
-	add("other-field", base64.StdEncoding.EncodeToString([]byte{0x08, 0x05}))            // last_offset = 5
-	add("other-field", base64.StdEncoding.EncodeToString([]byte{0x1a, 0x01, 'x'}))       // unknown field 3
-	add("other-field", base64.StdEncoding.EncodeToString([]byte{0x12, 0x00}))            // last_resource_name = ""
+	add("other-field", base64.StdEncoding.EncodeToString([]byte{0x08, 0x05}))                  // last_offset = 5
+	add("other-field", base64.StdEncoding.EncodeToString([]byte{0x1a, 0x01, 'x'}))             // unknown field 3
+	add("other-field", base64.StdEncoding.EncodeToString([]byte{0x12, 0x00}))                  // last_resource_name = ""
 	add("other-field", base64.StdEncoding.EncodeToString([]byte{0x12, 0x01, 'a', 0x18, 0x01})) // name + unknown field
 	// well-formed tokens naming keys that are not in the collection
-	absent := []string{" ", "~~~~~~~~~~~~~", "a", "ab", "b", "A", "0", "zzz"}
-	for i := 0; i < 4 && len(keys) > 0; i++ {
+	absent := []string{" ", "~~~~~~~~~~~~~", "ab", "A"}
+	for i := 0; i < 2 && len(keys) > 0; i++ {
 		k := keys[g.r.Intn(len(keys))]
 		absent = append(absent, k+" ", k+"~")
 		if len(k) > 1 {
@@ -672,6 +905,16 @@ func (g *c15) badKeyTokens(keys []string) [][2]string {
 		have[k] = true
 	}
 	for _, k := range absent {
+		if !have[k] {
+			add("absent-key", keyToken(k))
+		}
+	}
+	// tokens minted earlier by this or another RPC's server (over another collection)
+	for i := 0; i < 3 && len(g.minted) > 0; i++ {
+		add("minted-elsewhere", g.minted[g.r.Intn(len(g.minted))])
+	}
+	// tokens naming special keys: non-ASCII, 128 bytes (two-byte length varint), '~'
+	for _, k := range []string{"\u00e9", strings.Repeat("k", 128), "~", "ab?"} {
 		if !have[k] {
 			add("absent-key", keyToken(k))
 		}
@@ -709,11 +952,11 @@ func (g *c15) badWasteTokens(n int) [][2]string {
 }
 
 func genC15(o *vcoq.Out, r *vcoq.Rand, tier string) error {
-	o.Header = "From SC Require Import Base.Prelude Pages.Pager Pages.C15Judge."
+	o.Header = "From SC Require Import Base.Prelude Pages.Codec Pages.PagerCfg Pages.Pager Pages.C15Judge."
 	o.CaseType = "c15case"
 	o.Judge = "judge"
 	o.Shard = 150
-	o.Rule = "one case = one client page chain against the real ModelServer (7 RPCs): collection sizes 0-60 (thorough: +999,1000,1001), page sizes {-5..0,1,2,3,7,50,1000,5000,random incl. divisors of n} (quick: 6 of them per collection, thorough: all), ids random over a 10-letter alphabet with ~50% extending or truncating another id (hail: ids allocated by the model from a scripted RNG that forces prefix collisions); token stream per collection: bad base64, base64 of non-PageToken bytes, PageTokens without resource name, absent keys (incl. a deleted key), present keys; waste: non-numeric, above count, negative, in-range numeric tokens. Non-trivial: non-empty collection. Distinct by the full case term."
+	o.Rule = "one case = one client page chain against the real ModelServer (7 RPCs): collection sizes 0-60 + 1001 (thorough: +999,1000); per collection the same page size on every request {-5..0,1,2,3,7,50,1000,5000,random incl. divisors of n and the ends of int32} (quick: 6 of them, thorough: all) and page sizes that change from request to request (small then everything, large then small, negative on the second request, random triples); read mask none / key+shadow field / shadow field only (key left out; items are identified by a second field carrying the id); ids random over a 10-letter alphabet with ~50% extending or truncating another id, ~15% special (bytes whose token has base64 sextets 62/63, non-ASCII UTF-8 of 2/3/4 bytes, quotes, 127/128/200 bytes) (hail: ids allocated by the model from a scripted RNG that forces prefix collisions); token stream per collection: bad base64, base64 of non-PageToken bytes, PageTokens without resource name or with unknown fields, absent keys (incl. a deleted key, non-ASCII, 128 bytes), present keys, tokens minted earlier by this or another RPC; waste: non-numeric, above count, negative, in-range numeric tokens. next_page_tokens are recorded as the raw text. Non-trivial: non-empty collection. Distinct by the full case term."
 	g := &c15{o: o, r: r}
 	thorough := tier == "thorough"
 
@@ -756,8 +999,12 @@ func genC15(o *vcoq.Out, r *vcoq.Rand, tier string) error {
 				return fmt.Errorf("%s: %d items created, %d listed", rp.name, n, len(keys))
 			}
 			big := n > 60
-			for _, size := range g.sizesFor(n, thorough && !big) {
-				g.chain(rp, in, size, "", "empty")
+			for i, pat := range g.patternsFor(n, thorough && !big) {
+				mask := g.maskMode()
+				if i == 0 {
+					mask = maskNone
+				}
+				g.chain(rp, in, pat, mask, "", "empty")
 			}
 			// corrupted / unexpected first tokens: every 3rd collection in quick, all in thorough
 			if thorough && !big || n%3 == 0 || n >= 49 && n <= 51 || n == 1001 {
@@ -765,14 +1012,14 @@ func genC15(o *vcoq.Out, r *vcoq.Rand, tier string) error {
 					if big && i%5 != n%5 {
 						continue // a thousand keys per case: a fifth of the stream is enough
 					}
-					g.chain(rp, in, g.tokenStreamSize(n), bt[1], bt[0])
+					g.chain(rp, in, g.tokenStreamSizes(n), g.maskMode(), bt[1], bt[0])
 				}
 				// a token naming a key that is deleted afterwards
 				if n >= 2 && !big {
 					victim := keys[g.r.Intn(n)]
 					tok := keyToken(victim)
 					if err := in.del(victim); err == nil {
-						g.chain(rp, in, int32(1+g.r.Intn(4)), tok, "deleted-key")
+						g.chain(rp, in, []int32{int32(1 + g.r.Intn(4))}, g.maskMode(), tok, "deleted-key")
 					}
 				}
 			}
@@ -791,18 +1038,19 @@ func genC15(o *vcoq.Out, r *vcoq.Rand, tier string) error {
 			return fmt.Errorf("waste: stored records differ from the records added")
 		}
 		big := n > 60
-		for _, size := range g.sizesFor(n, thorough && !big) {
-			g.chain(wrp, in, size, "", "empty")
+		for _, pat := range g.patternsFor(n, thorough && !big) {
+			g.chain(wrp, in, pat, maskNone, "", "empty")
 		}
 		if thorough && !big || n%3 == 0 || n >= 49 && n <= 51 || n == 1001 {
 			for i, bt := range g.badWasteTokens(n) {
 				if big && i%3 != n%3 {
 					continue
 				}
-				g.chain(wrp, in, g.tokenStreamSize(n), bt[1], bt[0])
+				g.chain(wrp, in, g.tokenStreamSizes(n), maskNone, bt[1], bt[0])
 			}
 		}
 	}
-	o.Extra["skipped_unprintable"] = g.skipped
+	o.Extra["skipped_invalid_utf8"] = g.skipped
+	o.Extra["guard_pass"] = fmt.Sprintf("%d of %d cases satisfy C15_guard (listing strictly ascending, no empty key, valid UTF-8, n < 2^31, n + 3 calls allowed)", g.guardOK, g.cases)
 	return nil
 }
